@@ -690,7 +690,18 @@ impl EGraph {
             self.report_level,
             context,
         )?;
-        if let Some(message) = self.panic_message.lock().unwrap().take() {
+        let panic_message = self.panic_message.lock().unwrap().take();
+        if let Some(message) = panic_message {
+            // The failed iteration may already have merged unions staged before
+            // the panic. Canonicalize what is there before reporting the error,
+            // or the database is left with stale ids until some later union
+            // happens to trigger a rebuild.
+            if uf_size_before != self.db.get_table(self.uf_table).len() {
+                self.rebuild()?;
+                self.panic_message.lock().unwrap().take();
+            } else {
+                self.inc_ts();
+            }
             return Err(PanicError(message).into());
         }
 
